@@ -416,6 +416,7 @@ def cases(ctx):
     rng = ctx.rng
     yield from corpus()
     yield from const_family(ctx)
+    yield from or_scope_family(ctx)
     yield from sweep(ctx)
     if ctx.tier == "quick":
         n_pat, hosts = 200, (1, 4, 1)
@@ -685,6 +686,38 @@ def const_family(ctx):
             yield p, h, False, "const-boundary", {"coq_rate": 0.5}
             if commutable(p):
                 yield p, h, True, "const-boundary-commute", {"coq_rate": 0.5}
+
+
+def or_scope_family(ctx):
+    """Named variables shared between the outside and the inside of OrValue alternatives, the outside use matched before and
+    after the OrValue is entered: root(v, OR(inner1(..), inner2(..))) and root(OR(..), v) for every way of naming the leaves
+    with x / y, against hosts root'(a, inner'(b, c)) for EVERY assignment of three graph inputs to the leaves (so each
+    binding conflict between the scopes occurs), backtracking (same operator in both alternatives) and dispatching
+    (different operators) ORs alike."""
+    rng = ctx.rng
+    X, Y = ["var", "x"], ["var", "y"]
+    pats = []
+    for alt_ops in (("Mul", "Mul"), ("Mul", "Add")):
+        for outer in (X, Y):
+            for a1 in ((X, Y), (Y, X), (X, X)):
+                for a2 in ((Y, X), (X, Y), (Y, Y)):
+                    for or_first in (False, True):
+                        nodes = [{"op": alt_ops[0], "ins": list(a1)}, {"op": alt_ops[1], "ins": list(a2)},
+                                 {"op": "Sub", "ins": [["or", 0], outer] if or_first else [outer, ["or", 0]]}]
+                        pats.append({"params": ["x", "y"], "nodes": nodes, "ors": [{"alts": [["out", 0, 0], ["out", 1, 0]]}],
+                                     "outs": [["out", 2, 0]]})
+    if ctx.tier == "quick":
+        pats = rng.sample(pats, 18)
+    for p in pats:
+        or_first = p["nodes"][2]["ins"][0][0] == "or"
+        for inner in sorted({p["nodes"][0]["op"], p["nodes"][1]["op"]}):
+            for a in range(3):
+                for b in range(3):
+                    for c in range(3):
+                        h = {"nodes": [{"op": inner, "dom": "", "attrs": [], "ins": [b, c], "outs": [3]},
+                                       {"op": "Sub", "dom": "", "attrs": [], "ins": [3, a] if or_first else [a, 3], "outs": [4]}],
+                             "inputs": [0, 1, 2], "outs": [4], "consts": {}}
+                        yield p, h, False, "or-scope", {"coq_rate": 0.3, "cache_host": True}
 
 
 def sweep(ctx):
